@@ -44,6 +44,11 @@ WORLDS = {
     "W64-381": (["FP_PRIME=381"], ""),
     "W64-446": (["FP_PRIME=446"], ""),
     "W64-446q": (["FP_PRIME=446", "FP_QNRES=on"], ""),
+    # the other pairing families, as the shipped presets configure them
+    "W64-315": (["FP_PRIME=315"], ""),
+    "W64-330": (["FP_PRIME=330"], ""),
+    "W64-575q": (["FP_PRIME=575", "FP_QNRES=on", "BN_PRECI=3072"], ""),
+    "W64-638": (["FP_PRIME=638"], ""),
     "W64-638q": (["FP_PRIME=638", "FP_QNRES=on", "BN_PRECI=2048"], ""),
     "W64-dyn-san": (["ALLOC=DYNAMIC"], SAN),
     "W64-mt": (["MULTI=PTHREAD"], ""),
